@@ -520,53 +520,68 @@ impl<H: Hal, T: Transport> VirtIOSound<H, T> {
         let mut statuses: [VirtIOSndPcmStatus; QUEUE_SIZE as usize] =
             array::from_fn(|_| Default::default());
         let mut tokens = [0; QUEUE_SIZE as usize];
-        // The next element of `statuses` and `tokens` to use for adding to the queue.
-        let mut head = 0;
-        // The next element of `statuses` and `tokens` to use for popping the queue.
-        let mut tail = 0;
+        // The number of chunks which have been added to the queue and not yet popped. Each of them
+        // uses `buffers[i]`, `statuses[i]` and `tokens[i]` for one slot `i` with
+        // `buffers[i].is_some()`.
+        let mut outstanding = 0;
+        // The first failure, if any. After a failure no more chunks are added, but the chunks
+        // which are already in the queue are still popped before returning, so that no buffer (in
+        // particular no element of `statuses`, which lives in this stack frame) is left shared
+        // with the device.
+        let mut result = Ok(());
 
         loop {
             // Add as buffers to the TX queue if possible. 3 descriptors are required for the 2
             // input buffers and 1 output buffer.
-            if self.tx_queue.available_desc() >= 3 {
-                if let Some(buffer) = remaining_buffers.next() {
-                    // SAFETY: The buffers being added to the queue are non-empty and are not
-                    // accessed before the corresponding call to `pop_used`.
-                    tokens[head] = unsafe {
-                        self.tx_queue.add(
-                            &[&stream_id_bytes, buffer],
-                            &mut [statuses[head].as_mut_bytes()],
-                        )?
-                    };
-                    if self.tx_queue.should_notify() {
-                        self.transport.notify(TX_QUEUE_IDX);
+            if result.is_ok()
+                && self.tx_queue.available_desc() >= 3
+                && let Some(buffer) = remaining_buffers.next()
+            {
+                // Every outstanding chunk holds at least one of the `QUEUE_SIZE` descriptors,
+                // so there is a free slot whenever there is a free descriptor.
+                let slot = buffers.iter().position(Option::is_none).unwrap();
+                // SAFETY: The buffers being added to the queue are non-empty and are not
+                // accessed before the corresponding call to `pop_used`.
+                let added = unsafe {
+                    self.tx_queue.add(
+                        &[&stream_id_bytes, buffer],
+                        &mut [statuses[slot].as_mut_bytes()],
+                    )
+                };
+                match added {
+                    Ok(token) => {
+                        tokens[slot] = token;
+                        buffers[slot] = Some(buffer);
+                        outstanding += 1;
+                        if self.tx_queue.should_notify() {
+                            self.transport.notify(TX_QUEUE_IDX);
+                        }
                     }
-                    buffers[head] = Some(buffer);
-                    head += 1;
-                    if head >= usize::from(QUEUE_SIZE) {
-                        head = 0;
-                    }
-                } else if head == tail {
-                    break;
+                    Err(e) => result = Err(e),
                 }
             }
-            if self.tx_queue.can_pop() {
+            if outstanding == 0 && (result.is_err() || remaining_buffers.len() == 0) {
+                break;
+            }
+            // The device may complete the chunks in any order.
+            if let Some(token) = self.tx_queue.peek_used() {
+                let slot = (0..usize::from(QUEUE_SIZE))
+                    .find(|&i| buffers[i].is_some() && tokens[i] == token)
+                    .ok_or(Error::WrongToken)?;
                 // SAFETY: The same buffers passed to `add` are passed to `pop_used` by using
-                // `tail` to get the corresponding items from `tokens`, `buffers`, and
+                // `slot` to get the corresponding items from `tokens`, `buffers`, and
                 // `statuses`.
                 unsafe {
                     self.tx_queue.pop_used(
-                        tokens[tail],
-                        &[&stream_id_bytes, buffers[tail].unwrap()],
-                        &mut [statuses[tail].as_mut_bytes()],
+                        token,
+                        &[&stream_id_bytes, buffers[slot].unwrap()],
+                        &mut [statuses[slot].as_mut_bytes()],
                     )?;
                 }
-                if statuses[tail].status != CommandCode::SOk.into() {
-                    return Err(Error::IoError);
-                }
-                tail += 1;
-                if tail >= usize::from(QUEUE_SIZE) {
-                    tail = 0;
+                buffers[slot] = None;
+                outstanding -= 1;
+                if result.is_ok() && statuses[slot].status != CommandCode::SOk.into() {
+                    result = Err(Error::IoError);
                 }
             }
             #[cfg(virtio_drivers_verif)]
@@ -574,7 +589,7 @@ impl<H: Hal, T: Transport> VirtIOSound<H, T> {
             spin_loop();
         }
 
-        Ok(())
+        result
     }
 
     /// Transfer PCM frame to device, based on the stream type(OUTPUT/INPUT).
